@@ -964,7 +964,15 @@ func runFlagSpace(c *Check, a *Analysis) {
 		top := fn
 		okU, okC := false, false
 		family := withClosures(topParent(top))
-		// helpers called from the family that prepare the context (extract-function refactoring)
+		// the call sits in a plain helper (the loop tail moved out): the context was
+		// prepared by the function the helper is in-line code of
+		if p.isPlainHelper(topParent(top)) {
+			for h := range p.homes(topParent(top)) {
+				if h != topParent(top) {
+					family = append(family, withClosures(topParent(h))...)
+				}
+			}
+		}
 		// the context may come from a helper that prepares it (extract-function refactoring)
 		var ctxArg ssa.Value
 		for i, prm := range sr.Params {
